@@ -61,3 +61,24 @@ PROPS["C10"] = dict(PROPS["C10"],
                     "first differing record. A difference that is exactly what the in-process real Mapper computes is reported in class OBS_C10 instead "
                     "(the mapper differs from its model, the loop transported it faithfully)",
                     assumptions=LOOP_ASSUME + ["realloop: a pipe never reports ENODEV, so end-of-device is exercised by the loop engine only; the child is killed at the end of each run"])
+
+# ---- second engine of C12: the decoding of the tablet-mode switch device (tools/engines/wire.py, class TABLET)
+PROPS["C12"] = dict(PROPS["C12"],
+                    engines=["loop", "wire"],
+                    classes=PROPS["C12"]["classes"] + ["TABLET"],
+                    trusted=LOOP_TRUST + [
+                        "hand-written model coq/theories/TabletWire.v of TabletModeSwitchReader::next (src/tablet_mode_switch_reader.rs), tied to the code by the wire engine: the REAL TabletModeSwitchReader { fd } on the read end of a non-blocking pipe vs the extracted decode_tablet_run (class TABLET), and its answers judged by the extracted check_switch_reader = tablet_events_of (clause C12.switch_reader); records laid out by libc::input_event (size/offsets/endianness measured on every run and required to equal the model's assumptions); pipes in place of the evdev switch node (reads of min(24, available) bytes, EAGAIN when drained).",
+                    ],
+                    rule=LOOP_RULE +
+                    " || wire engine (switch reader): the empty stream; every (type in {0,1,2,3,4,5,0x11,0x14,0xffff}) x (code in {0,1,2,5,0xffff}) x (value in "
+                    "{-1,0,1,2,i32::MIN,i32::MAX}) as a single record (exhaustive, verified by the checker), the whole grid in one stream, every grid record between "
+                    "two of the writer's key records, seeded mixtures with the writer's own key records, SYN_REPORT, other switches and random records, streams "
+                    "truncated 1..23 bytes before the end, garbage; evaluations += streams run through the real reader and the model",
+                    explanation=PROPS["C12"]["explanation"] +
+                    ". Second engine wire: the tablet events the loop reads (next_tablet) are decoded from the switch device by TabletModeSwitchReader::next; "
+                    "C12_switch_reader_exact (for every record sequence exactly the EV_SW/SW_TABLET_MODE records with value 1/0 as On/Off, in order) and "
+                    "C12_switch_reader_never_panics (any byte stream) are proved about the model TabletWire.v, the model is compared with the real reader on "
+                    "every generated stream (class TABLET) and the extracted specification checker judges the real reader's answers (clause C12.switch_reader)",
+                    assumptions=LOOP_ASSUME + [
+                        "switch reader: little-endian target and 24-byte struct input_event with type/code/value at offsets 16/18/20 (measured by the harness on every run; the check fails if they differ); a device read delivers whole records (on a pipe a short final read is zero-padded by the reader, which the model reproduces)",
+                    ])
